@@ -9,6 +9,7 @@
 #include "libphysica/Special_Functions.hpp"
 #include "libphysica/Utilities.hpp"
 #include "libphysica/List_Manipulations.hpp"
+#include "libphysica/Natural_Units.hpp"
 #include <climits>
 #include <fstream>
 using namespace libphysica;
@@ -282,6 +283,9 @@ static void build_table()
 		for(int i1 : {-1, 0, 1, 3, 4})
 			for(unsigned i2 : {0u, 2u, 3u, 4u})
 				add("Sub_List", "n=" + std::to_string(n) + ",i1=" + std::to_string(i1) + ",i2=" + std::to_string(i2), ACCEPT, [=]() { V v; for(unsigned i = 0; i < n; i++) v.push_back(i + 1); auto s = Sub_List(v, i1, i2); double t = 0; for(double x : s) t += x; return t; });
+	for(unsigned rl : {1u, 2u, 3u})
+		for(unsigned nd : {1u, 2u, 3u})
+			add("In_Units(table,units)", "row_length=" + std::to_string(rl) + ",units=" + std::to_string(nd), rl == nd ? ACCEPT : REJECT, [=]() { return libphysica::natural_units::In_Units(VV{V(2, 1.0), V(rl, 3.0)}.back().size() == 2 && rl == 2 ? VV{V(2, 1.0), V(2, 3.0)} : VV{V(nd, 1.0), V(rl, 3.0)}, V(nd, 2.0))[0][0]; });
 	add("Locate_Closest_Location", "sorted", ACCEPT, []() { return (double)Locate_Closest_Location(V{1, 2, 2, 5}, 2.1); });
 	add("Locate_Closest_Location", "unsorted", REJECT, []() { return (double)Locate_Closest_Location(V{1, 3, 2, 5}, 2.1); });
 	add("Check_For_Error", "condition_false", ACCEPT, []() { Check_For_Error(false, "f", "m"); return 0.0; });
